@@ -162,8 +162,9 @@ class Sched:
             import contextvars
 
             cctx = contextvars.copy_context()
-            return threading.Thread(target=lambda: cctx.run(run), daemon=True)
-        return threading.Thread(target=run, daemon=True)
+            return threading.Thread(target=lambda: cctx.run(run), daemon=True, name="vf-worker")
+        # (all workers carry the SAME name, as threads created with name="worker" in a loop do: a thread's name is a label, not an identity)
+        return threading.Thread(target=run, daemon=True, name="vf-worker")
 
 
 def run_interleaved(fns, segments, quantum, copy_context=False, instructions=False):
